@@ -430,7 +430,7 @@ class Task(Value, Generic[P, R]):
         """
         Update the context variables for the task.
         """
-        prev_context = self._task_options_override.get("_context_override", {})
+        prev_context = self.get_task_option("_context_override", {})
         return self.options(_context_override=merge_dicts([prev_context, context, kwargs]))
 
     def _calc_hash(self) -> str:
